@@ -50,7 +50,7 @@ static void phr_from_idx(const unsigned idx[16], int li, struct phr *p, int use_
  * G0 leading space, G1 trailing space, G2 two trailing spaces, G3 17th token, G4 drop last token, G5 trailing ideographic space */
 static int NM;           /* menu size in use */
 #define NLOCAL (NM + 11)
-#define NGLOBAL 8
+#define NGLOBAL 11
 static void deviate(struct phr *p, int pos, int d) {
     if (d < NM) strcpy(p->tok[pos], MENU[d]);
     else if (d == NM) strcpy(p->tok[pos], "qzqzq");
@@ -71,6 +71,9 @@ static void deviate(struct phr *p, int pos, int d) {
         case 5: strcpy(p->trail, "\xE3\x80\x80"); break;
         case 6: case 7: { /* token 8 cut to four bytes (a valid abbreviation where the list allows it), token 13 = those four bytes + letters no word has (6), or + the rest of another word (7) */
             char pre[8]; memcpy(pre, p->tok[7], 4); pre[4] = 0; if (strlen(p->tok[7]) >= 4 && !(pre[3] & 0x80)) { strcpy(p->tok[7], pre); snprintf(p->tok[12], 64, "%s%s", pre, d - NLOCAL == 6 ? "zzz" : "rolling"); } } break;
+        case 8: strcpy(p->trail, "\n"); break;           /* what a line read from a file or a terminal ends with: part of the last token, for both decoders alike */
+        case 9: strcpy(p->trail, "\r\n"); break;
+        case 10: strcpy(p->trail, " \n"); break;
     }
 }
 
